@@ -1,0 +1,19 @@
+//go:build verif
+
+package chacha20poly1305
+
+// Verification hooks (build tag verif only; add-only). Used by /verif properties C01, C02.
+
+// VerifSealGeneric calls the portable sealGeneric directly (no dispatch, no Seal-level checks).
+func VerifSealGeneric(key, dst, nonce, plaintext, additionalData []byte) []byte {
+	c := new(chacha20poly1305)
+	copy(c.key[:], key)
+	return c.sealGeneric(dst, nonce, plaintext, additionalData)
+}
+
+// VerifOpenGeneric calls the portable openGeneric directly (caller guarantees len(ciphertext) >= 16).
+func VerifOpenGeneric(key, dst, nonce, ciphertext, additionalData []byte) ([]byte, error) {
+	c := new(chacha20poly1305)
+	copy(c.key[:], key)
+	return c.openGeneric(dst, nonce, ciphertext, additionalData)
+}
